@@ -67,6 +67,14 @@ def cases(tier, rng):
         for width in (8, 16, 24, 32, 40, 48, 64, 12, 13, 31, 33, 63):
             for n in (1, 2, 9, 20):
                 yield {'k': 'back-generic', 'width': width, 'n': n}
+        if rep == 0:
+            # the CRC-32 polynomial value in wider registers (a table that compares equal to the built-in one is not the built-in one)
+            for width in (33, 40, 48, 64):
+                for n in (0, 5, 33):
+                    yield {'k': 'generic', 'width': width, 'init': 'ones', 'final': 'rand', 'n': n, 'pat': 'rand', 'P': 0xEDB88320}
+            # long rewinds (more than 4096 and more than 65536 bytes back)
+            for n, pos in ((5000, 3), (9000, 100), (70000, 1)):
+                yield {'k': 'back-long', 'n': n, 'pos': pos}
 
 def _val(rng, c, width):
     m = (1 << width) - 1
@@ -92,6 +100,8 @@ def run(case, ctx, rng):
         # any reflected polynomial of the width: top coefficient set (the usual case), clear, a small value, a single bit
         pc = ['top-set', 'top-clear', 'top-set', 'small', 'top-clear', 'one-bit'][(w + case['n'] + len(case['init'])) % 6]
         P = {'top-set': rng.getrandbits(w) | (1 << (w - 1)), 'top-clear': rng.getrandbits(w - 1) | 1, 'small': rng.randrange(1, 256), 'one-bit': 1 << rng.randrange(w)}[pc]
+        if case.get('P') is not None:
+            P = case['P']; pc = 'crc32-polynomial-in-a-wider-register'
         init, final = _val(rng, case['init'], w), _val(rng, case['final'], w)
         d = pattern(rng, case['n'], case['pat'])
         ctx.cls(('generic', w, case['init'], case['final'], pc))
@@ -162,6 +172,16 @@ def run(case, ctx, rng):
         for pos in range(n):
             want = bitwise_crc(0xEDB88320, 32, d[:pos], 0xffffffff, 0)
             ctx.eq('back==forward-state', call(C.crc32_back_pos, d, pos, c), want, data=d, pos=pos)
+    elif k == 'back-long':
+        n, pos = case['n'], case['pos']
+        d = rng.randbytes(n); c = zlib.crc32(d)
+        ctx.cls(('back-long', n, pos))
+        ctx.eq('back==forward-state', call(C.crc32_back_pos, d, pos, c), bitwise_crc(0xEDB88320, 32, d[:pos], 0xffffffff, 0), n=n, pos=pos)
+        t = rng.getrandbits(32)
+        r = call(C.crc32_fix_pos, d, pos, t)
+        ctx.eq('fixpos:crc==target', zlib.crc32(r) if isinstance(r, bytes) else r, t, n=n, pos=pos, target=t)
+        if isinstance(r, bytes):
+            ctx.eq('fixpos:outside-window-unchanged', (len(r), r[:pos], r[pos + 4:]), (n, d[:pos], d[pos + 4:]), n=n, pos=pos)
     elif k == 'back-generic':
         w, n = case['width'], case['n']
         P = rng.getrandbits(w) | (1 << (w - 1))
